@@ -423,11 +423,9 @@ func (i indexAccessor) Get(container Object) Object {
 		}
 	}
 
-	if isUndefined(container) {
-		return container
-	}
-
-	return newError("index operator %s not supporter: %q", i.operator.Literal, container.Type())
+	// a document path through something that is not a list (for [n]) or a map (for .name)
+	// refers to nothing
+	return UNDEFINED
 }
 
 func setListValue(list *List, value Object, index int64) Object {
@@ -537,6 +535,11 @@ func evalIndexObj(identifierExpression Expression, env *Environment) (Object, Ob
 
 	if isUndefined(obj) {
 		return obj, nil
+	}
+
+	if !strings.HasPrefix(identifier.Value, ":") {
+		// a document path through an attribute that is neither a list nor a map refers to nothing
+		return UNDEFINED, nil
 	}
 
 	return nil, newError("index operator not supported for %q", obj.Type())
